@@ -39,7 +39,12 @@ IsScalarLit(l)  == l.sh = <<>> /\ l.lk # "none"
 Is1D(l)         == Len(l.sh) = 1
 Is2D(l)         == Len(l.sh) = 2
 \* Python-level acceptance by the vector / matrix operators: isinstance(x, (int, float))
-PyNumber(l)     == l.lk \in {"int", "float", "bool", "npf64"}
+PyNumber(l)     == l.lk \in {"int", "float", "bool", "npf64", "tiny"}
+\* a "tiny" literal is the Python float  q * 1e-12 : TLC integers are 32-bit, so the scale is an opaque atom (parameter id 99)
+\* whose value the independent interpreter supplies; normal forms stay exact (symbolic in that atom)
+TinyAtom        == 99
+LitConst(l)     == IF l.lk = "tiny" THEN [k |-> "bin", op |-> "*", l |-> [k |-> "const", q |-> l.qs[1]], r |-> [k |-> "par", p |-> TinyAtom]]
+                   ELSE [k |-> "const", q |-> l.qs[1]]
 
 (* ---------------------------------------------------------------- calls (uniform record) *)
 Call(c, a, b, op, lit, i, j, k, s) ==
@@ -112,14 +117,14 @@ ApplyMkMat(c)  ==
     ELSE MObj([r \in 1..c.i |-> [q \in 1..c.j |->
                  IF c.k = 1 /\ q < r THEN <<c.s, q - 1, r - 1>> ELSE <<c.s, r - 1, q - 1>>]], c.k = 1)
 ApplyMkPar(c)  == PObj(c.i)                 \* i = parameter id; initial value in lit
-ApplyMkConst(c) == SObj(Const(c.lit.qs[1]))  \* Constant(literal)
+ApplyMkConst(c) == SObj(LitConst(c.lit))  \* Constant(literal)
 
 (* --- scalar arithmetic --- *)
 ApplySBin(c, h) ==            \* Expression op Expression
     IF h[c.a].kind # "S" \/ h[c.b].kind # "S" THEN Raised("type") ELSE SObj(Bin(c.op, h[c.a].den, h[c.b].den))
 ApplySBinLit(c, h, swap) ==   \* Expression op literal (swap: literal op Expression)
     IF h[c.a].kind # "S" \/ ~IsScalarLit(c.lit) THEN Raised("type")
-    ELSE SObj(MkBin(c.op, h[c.a].den, Const(c.lit.qs[1]), swap))
+    ELSE SObj(MkBin(c.op, h[c.a].den, LitConst(c.lit), swap))
 ApplySNeg(c, h) == IF h[c.a].kind # "S" THEN Raised("type") ELSE SObj(Neg(h[c.a].den))
 ApplySPos(c, h) == IF h[c.a].kind # "S" THEN Raised("type") ELSE SObj(h[c.a].den)
 
@@ -133,7 +138,7 @@ ApplyFn(c, h) ==
     ELSE IF o.kind = "V" THEN w(EUObj([i \in 1..Len(o.names) |-> Un(c.op, Var(o.names[i]))], o.names, c.op))
     ELSE IF o.kind \in {"E", "MVP"} THEN w(EObj([i \in 1..Len(o.dens) |-> Un(c.op, o.dens[i])]))
     ELSE May(Raised("type"))
-ApplyFnLit(c) == IF IsScalarLit(c.lit) THEN SObj(Un(c.op, Const(c.lit.qs[1]))) ELSE Raised("type")
+ApplyFnLit(c) == IF IsScalarLit(c.lit) THEN SObj(Un(c.op, LitConst(c.lit))) ELSE Raised("type")
 
 (* --- vector views --- *)
 ApplyIndex(c, h) ==
@@ -169,7 +174,7 @@ ApplyVBinLit(c, h, swap) ==   \* vector op literal, or literal op vector
     IF ~IsVecLike(a) THEN May(Raised("type"))
     ELSE LET ea == Elems(a) IN
     IF IsScalarLit(l) THEN
-        LET r == EObj([i \in 1..Len(ea) |-> MkBin(c.op, ea[i], Const(l.qs[1]), swap)]) IN
+        LET r == EObj([i \in 1..Len(ea) |-> MkBin(c.op, ea[i], LitConst(l), swap)]) IN
         IF c.op = "**" THEN
             (IF swap THEN May(r)
              ELSE IF a.kind = "V" THEN (IF PyNumber(l) THEN EPObj(r.dens, a.names, l.qs[1]) ELSE May(EPObj(r.dens, a.names, l.qs[1])))
@@ -232,13 +237,13 @@ Flip(s) == IF s = "<=" THEN ">=" ELSE IF s = ">=" THEN "<=" ELSE s
 ApplyCmpLit(c, h, swap) ==    \* a sense lit ; swap: lit sense a  (Python reflects the operator)
     LET a == h[c.a]  l == c.lit  sense == c.op IN
     IF a.kind = "S" THEN
-        IF IsScalarLit(l) THEN CObj(IF swap THEN ConDen(Const(l.qs[1]), a.den) ELSE ConDen(a.den, Const(l.qs[1])), sense)
+        IF IsScalarLit(l) THEN CObj(IF swap THEN ConDen(LitConst(l), a.den) ELSE ConDen(a.den, LitConst(l)), sense)
         ELSE May(Raised("type"))
     ELSE IF IsVecLike(a) THEN
         LET ea == Elems(a)
             mk(i, t) == [den |-> IF swap THEN ConDen(t, ea[i]) ELSE ConDen(ea[i], t), sense |-> sense] IN
         IF IsScalarLit(l) THEN
-            (LET r == CLObj([i \in 1..Len(ea) |-> mk(i, Const(l.qs[1]))]) IN IF PyNumber(l) THEN r ELSE May(r))
+            (LET r == CLObj([i \in 1..Len(ea) |-> mk(i, LitConst(l))]) IN IF PyNumber(l) THEN r ELSE May(r))
         ELSE IF Is1D(l) THEN
             IF l.sh[1] # Len(ea) THEN Raised("must") ELSE CLObj([i \in 1..Len(ea) |-> mk(i, Const(l.qs[i]))])
         ELSE Raised("must")
@@ -303,7 +308,7 @@ ApplyMBinLit(c, h, swap) ==   \* matrix op literal | literal op matrix
     IF ~IsMatLike(a) THEN May(Raised("type"))
     ELSE LET ea == MElems(a)  nr == MRows(a)  nc == MCols(a) IN
     IF IsScalarLit(l) THEN
-        LET r == MEObj([i \in 1..nr |-> [j \in 1..nc |-> MkBin(c.op, ea[i][j], Const(l.qs[1]), swap)]]) IN
+        LET r == MEObj([i \in 1..nr |-> [j \in 1..nc |-> MkBin(c.op, ea[i][j], LitConst(l), swap)]]) IN
         IF PyNumber(l) /\ ~(swap /\ c.op = "**") THEN r ELSE May(r)
     ELSE IF Is2D(l) THEN
         IF l.sh[1] # nr \/ l.sh[2] # nc THEN Raised("must")
@@ -343,7 +348,7 @@ ApplyMCmpLit(c, h, swap) ==
     ELSE LET ea == Flat(MElems(a))  nr == MRows(a)  nc == MCols(a)
              mk(i, t) == [den |-> IF swap THEN ConDen(t, ea[i]) ELSE ConDen(ea[i], t), sense |-> c.op] IN
     IF IsScalarLit(l) THEN
-        (LET r == CLObj([i \in 1..Len(ea) |-> mk(i, Const(l.qs[1]))]) IN IF PyNumber(l) THEN r ELSE May(r))
+        (LET r == CLObj([i \in 1..Len(ea) |-> mk(i, LitConst(l))]) IN IF PyNumber(l) THEN r ELSE May(r))
     ELSE IF Is2D(l) THEN
         IF l.sh[1] # nr \/ l.sh[2] # nc THEN Raised("must")
         ELSE (LET r == CLObj([i \in 1..Len(ea) |-> mk(i, Const(l.qs[i]))]) IN IF l.lk = "list" THEN May(r) ELSE r)
